@@ -55,6 +55,20 @@ class C06(Check):
             n = s.encode("utf-8")[:65535]
             n = n.decode("utf-8", "ignore").encode("utf-8")
             cases.append(("path " + hexs(n), {"n": n.hex()}))
+        # raw names as foreign producers store them: CP437 bytes (flag clear) and invalid UTF-8 (flag set) decode to
+        # strings whose byte positions differ from the raw ones -- around NUL, separators and dots
+        dec = lambda flag, raw: (raw.decode("utf-8", "replace") if flag else raw.decode("cp437")).encode("utf-8")
+        hi = [b"\x82", b"\x80", b"\xff", b"\xc3", b"\xe2\x82", b"caf\x82"]
+        sp = [b"/", b"\\", b"\0", b".", b"..", b"a", b"/x\0y", b"\0/.."]
+        for flag in (0, 1):
+            for h in hi:
+                for x in sp:
+                    for y in sp:
+                        for n in (h + x + y, x + h + y, x + y + h, b"dir/" + h + x + b"t" + y):
+                            cases.append(("pathraw %d %s" % (flag, hexs(n)), {"n": dec(flag, n).hex()}))
+            for _ in range(300 if self.tier == "quick" else 20000):
+                n = b"".join(r.choice(hi + sp + [b"b", b"c/"]) for _ in range(r.randrange(1, 9)))
+                cases.append(("pathraw %d %s" % (flag, hexs(n)), {"n": dec(flag, n).hex()}))
         return cases
 
     def oracle(self, line, meta, out):
